@@ -105,6 +105,8 @@ func runAttemptCell(r *hk.Run, o *expectOrigin, ac attemptCell) {
 	case "marshal":
 		rq.SetBody(sc.marshalObj())
 	}
+	rh0, ch0 := rq.Headers.Clone(), c.Headers.Clone() // the maps before the first execution
+	var cookieSeen []string
 	jarSeg := "nock"
 	if ac.Jar {
 		jarSeg = "setck"
@@ -180,6 +182,7 @@ func runAttemptCell(r *hk.Run, o *expectOrigin, ac attemptCell) {
 		if ac.Jar && k > 1 {
 			wantCk = append(wantCk, fmt.Sprintf("jar=%d", k-1)) // what the previous answer set
 		}
+		cookieSeen = append(cookieSeen, strings.Join(gotCk, "; "))
 		if strings.Join(gotCk, "|") != strings.Join(wantCk, "|") {
 			fail("cookies-changed", fmt.Sprintf("execution %d carries other cookies than described (each cookie once, the jar's current value)", k), gotCk, wantCk)
 		}
@@ -187,5 +190,9 @@ func runAttemptCell(r *hk.Run, o *expectOrigin, ac attemptCell) {
 			fail("body-changed", fmt.Sprintf("execution %d: %d body bytes, %d described", k, len(g.Body), len(body)), nil, nil)
 		}
 	}
-	r.Add(hk.Case{Desc: map[string]interface{}{"kind": "attempt", "cell": ac}}, fmt.Sprintf("attempt|%+v", ac), true)
+	coq := ""
+	if ac.Mode == "retry" && !ac.Jar { // the retry attempts of one execution, as the model's after_attempts
+		coq = fmt.Sprintf("AttemptCase %s %s %s %s %s", coqHeader(rh0), coqHeader(ch0), coqCookies(ac.ReqCk), coqCookies(ac.CliCk), hk.CoqStrList(cookieSeen))
+	}
+	r.Add(hk.Case{Coq: coq, Desc: map[string]interface{}{"kind": "attempt", "cell": ac}}, fmt.Sprintf("attempt|%+v", ac), true)
 }
